@@ -44,6 +44,8 @@ type GenOpts struct {
 	// than the transaction's signer out of the histories (exclusion by construction of a listed
 	// finding) and counts how often that happened.
 	AvoidSenderNotSigner *int
+	// PricePool, if set, replaces the pool of price strings of generated price submissions.
+	PricePool []string
 	// Dynamic, if set, adjusts the weights to the current state before every draw.
 	Dynamic func(m *Machine, w map[string]int) map[string]int
 }
@@ -695,6 +697,9 @@ func (m *Machine) drawPrice(t *rapid.T, g *GenOpts, a *Action) {
 	}
 	detPool := []string{"1", "2", "3"}
 	pricePool := []string{"100", "100", "100", "101", "99"}
+	if len(g.PricePool) > 0 {
+		pricePool = g.PricePool
+	}
 	for i := 0; i < nd; i++ {
 		a.Dets = append(a.Dets, detPool[uniform(t, len(detPool), "det")])
 		a.Prices = append(a.Prices, pricePool[uniform(t, len(pricePool), "pval")])
